@@ -208,6 +208,12 @@ Theorem C16_address_list :
 Proof. exact parse_addresses_spec. Qed.
 Print Assumptions C16_address_list.
 
+(* the ISO date of an .mbox message is what parsedate_to_datetime(...).isoformat() gives, verbatim (a date without zone
+   information stays naive: nothing is appended), and "" when it refuses the header *)
+Theorem C16_mbox_date_field : forall d : str, date_field (Some d) = d /\ date_field None = [].
+Proof. intro d. split; reflexivity. Qed.
+Print Assumptions C16_mbox_date_field.
+
 (* ---------------------------------------------------------------- EmailContent *)
 Theorem C16_full_text_plain_else_html :
   forall subject plain html : str,
